@@ -519,7 +519,9 @@ class Z3Alg(Alg):
     a = z3.simplify(_zr(a))
     k = a.get_id()
     if k not in self.trig:
-      c, s = self.fresh('cos'), self.fresh('sin')
+      # sin/cos as uninterpreted FUNCTIONS of the argument (so equal arguments give equal values across runs) plus the
+      # Pythagorean identity instantiated at every argument that occurs: a sound abstraction of the real functions
+      c, s = self.uf('cos', a), self.uf('sin', a)
       self.assume.append(c * c + s * s == 1)
       self.trig[k] = (a, c, s)
     return self.trig[k][1:]
